@@ -97,13 +97,13 @@
 
 ; ---- step relations of C15: definitions, bindings (with their owner) and provider ownership are for life
 (define-fun defsKept ((o (Array Key Bytes)) (n (Array Key Bytes))) Bool
-  (forall ((name Str)) (! (=> (not (= (select o (KDef name)) bnil)) (= (select n (KDef name)) (select o (KDef name)))) :pattern ((select n (KDef name))))))
+  (forall ((name Str)) (! (=> (not (= (select o (KDef name)) bnil)) (= (select n (KDef name)) (select o (KDef name)))) :pattern ((select n (KDef name))) :pattern ((select o (KDef name))))))
 (define-fun bindsKept ((o (Array Key Bytes)) (n (Array Key Bytes))) Bool
   (forall ((s Str) (p Bytes)) (! (=> (bindFound o s p) (and (bindFound n s p) (= (ServiceBinding_Owner (bindOf n s p)) (ServiceBinding_Owner (bindOf o s p)))
       (= (ServiceBinding_ServiceName (bindOf n s p)) (ServiceBinding_ServiceName (bindOf o s p))) (= (ServiceBinding_Provider (bindOf n s p)) (ServiceBinding_Provider (bindOf o s p)))))
-      :pattern ((select n (KBind s p))))))
+      :pattern ((select n (KBind s p))) :pattern ((select o (KBind s p))))))
 (define-fun ownersKept ((o (Array Key Bytes)) (n (Array Key Bytes))) Bool
-  (forall ((p Bytes)) (! (=> (not (= (select o (KOwner p)) bnil)) (= (select n (KOwner p)) (select o (KOwner p)))) :pattern ((select n (KOwner p))))))
+  (forall ((p Bytes)) (! (=> (> (blen (ownerOf o p)) 0) (= (ownerOf n p) (ownerOf o p))) :pattern ((select n (KOwner p))) :pattern ((select o (KOwner p))))))
 (define-fun forLife ((o (Array Key Bytes)) (n (Array Key Bytes))) Bool (and (defsKept o n) (bindsKept o n) (ownersKept o n)))
 
 ; ---- aggregates: uninterpreted with their point-update law
